@@ -452,3 +452,94 @@ Definition c04_stats (cs : list c04_case) : Z * Z * Z :=
          end) ra acc
     | _, _ => acc
     end) cs (0, 0, 0).
+
+(* ------------------------------------------------------------------------------------------------------------ *)
+(* IndexMap.__getitem__ for a whole request (252-259): _map.loc[index].to_numpy()                                 *)
+(* ------------------------------------------------------------------------------------------------------------ *)
+(* CRN off: the labels themselves.  CRN on: RandomnessError while nothing is registered (_map is None, even for an
+   empty request); KeyError (EOther) if a requested label is unknown; otherwise the positions IN REQUEST ORDER, a
+   repeated label repeating its position. *)
+Definition getitem_all (crn : bool) (m : imap) (idx : list Z) : result (list Z) :=
+  if negb crn then Ok idx else
+  match m with
+  | [] => Rejected ERandomness
+  | _ =>
+    if forallb (fun s => match pos_of_sim m s with Some _ => true | None => false end) idx
+    then Ok (map (fun s => match pos_of_sim m s with Some p => p | None => 0 end) idx)
+    else Rejected EOther
+  end.
+
+(* a query observed on the real map: (requested labels, outcome code 0 ok | 1 RandomnessError | 2 other, result) *)
+Definition query := (list Z * Z * list Z)%type.
+Definition check_query (crn : bool) (m : imap) (q : query) : bool :=
+  let '(idx, code, res) := q in
+  match getitem_all crn m idx with
+  | Ok ps => (code =? 0) && list_eqb Z.eqb ps res
+  | Rejected ERandomness => code =? 1
+  | Rejected _ => code =? 2
+  | OutOfFuel => false
+  end.
+
+(* history with queries after every step, answered from the OBSERVED map *)
+Fixpoint check_qsteps (size : Z) (crn : bool) (fuel : nat) (prev : imap) (l : list (step * list query)) : bool :=
+  match l with
+  | [] => true
+  | (st, qs) :: r =>
+    match check_step false size crn fuel prev st with
+    | Some (nx, _) => forallb (check_query crn nx) qs && check_qsteps size crn fuel nx r
+    | None => false
+    end
+  end.
+Definition cq_case := (Z * bool * nat * list query * list (step * list query))%type.   (* queries before any update *)
+Definition check_cq (c : cq_case) : bool :=
+  let '(size, crn, fuel, q0, l) := c in forallb (check_query crn []) q0 && check_qsteps size crn fuel [] l.
+
+(* ------------------------------------------------------------------------------------------------------------ *)
+(* RandomnessManager (manager.py): block size (setup 47-50) and register_simulants (157-176)                      *)
+(* ------------------------------------------------------------------------------------------------------------ *)
+(* map_size = max(configuration.randomness.map_size, 10 * population_size) *)
+Definition manager_size (cfg_size pop : Z) : Z := Z.max cfg_size (10 * pop).
+
+(* a simulants frame: column label -> column (one cell per row), in frame order; labels = its index *)
+Definition frame := list (Z * list cell).
+
+(* simulants.loc[:, key_columns]: the key columns by LABEL, in the order of the configuration *)
+Fixpoint select_cols (kcols : list Z) (f : frame) : option (list (list cell)) :=
+  match kcols with
+  | [] => Some []
+  | c :: r => match zassoc c f, select_cols r f with Some col, Some cols => Some (col :: cols) | _, _ => None end
+  end.
+Definition row_at (i : nat) (cols : list (list cell)) : key := map (fun col => nth i col KBad) cols.
+Definition batch_of (labels : list Z) (cols : list (list cell)) : batch :=
+  map (fun il : nat * Z => (snd il, row_at (fst il) cols)) (combine (seq 0 (length labels)) labels).
+
+(* register_simulants: a key column missing from the frame -> RandomnessError before anything else; else
+   IndexMap.update on the selected columns at the current clock.  IndexMap._use_crn = bool(key_columns). *)
+Definition register (size : Z) (kcols : list Z) (m : imap) (labels : list Z) (f : frame) (t : cell) (fuel : nat) : result imap :=
+  match select_cols kcols f with
+  | None => Rejected ERandomness
+  | Some cols => update size (negb (is_nil kcols)) m (batch_of labels cols) t fuel
+  end.
+
+(* correspondence: a real RandomnessManager inside a real simulation.
+   (configured map_size, population_size, key columns, observed len(index_map), registrations) with a registration =
+   (labels, frame, clock, outcome code, obs) as in [step] *)
+Definition mreg := (list Z * frame * cell * Z * list (Z * Z))%type.
+Definition mgr_case := (Z * Z * list Z * Z * nat * list mreg)%type.
+
+Fixpoint check_mregs (size : Z) (kcols : list Z) (fuel : nat) (prev : imap) (l : list mreg) : bool :=
+  match l with
+  | [] => true
+  | (labels, f, t, code, obs) :: r =>
+    match select_cols kcols f with
+    | None => (code =? 1) && same_obs prev obs && check_mregs size kcols fuel prev r
+    | Some cols =>
+      match check_step false size (negb (is_nil kcols)) fuel prev (batch_of labels cols, t, code, obs) with
+      | Some (nx, _) => check_mregs size kcols fuel nx r
+      | None => false
+      end
+    end
+  end.
+Definition check_mgr (c : mgr_case) : bool :=
+  let '(cfg, pop, kcols, size_obs, fuel, l) := c in
+  (size_obs =? manager_size cfg pop) && check_mregs size_obs kcols fuel [] l.
